@@ -210,8 +210,10 @@ class RTr:
             elif isinstance(s, (ast.Return, ast.Raise)):
                 cur = self.reads(s) if not isinstance(s, ast.Raise) else set()
             elif isinstance(s, ast.Continue):
+                if lc is None: raise Untranslatable("continue outside a loop")
                 cur = set(lc)
             elif isinstance(s, ast.Break):
+                if lb is None: raise Untranslatable("break outside a loop")
                 cur = set(lb)
             elif isinstance(s, ast.If):
                 cur = self.reads(s.test) | self.live(s.body, cur, lc, lb) | self.live(s.orelse, cur, lc, lb)
